@@ -248,8 +248,36 @@ func c13Writer(a []string) []string {
 	}
 	pos := 0
 	res := make([]string, 0, len(opToks))
+	// 'W' ops hand out consecutive slices of ONE backing array holding the whole output (a payload sent piecewise):
+	// every such slice has spare capacity, and the bytes behind it are written by a later op.
+	total := 0
+	for _, t := range opToks {
+		if t[0] != 'f' {
+			n, _ := strconv.Atoi(t[1:])
+			total += n
+		}
+	}
+	var stream []byte
+	for _, t := range opToks {
+		if t[0] == 'W' && stream == nil {
+			stream = make([]byte, total)
+			for i := range stream {
+				stream[i] = c13Byte(seed, i)
+			}
+		}
+	}
 	for _, t := range opToks {
 		switch t[0] {
+		case 'W':
+			n, _ := strconv.Atoi(t[1:])
+			b := stream[pos : pos+n]
+			pos += n
+			m, err := w.WriteBinary(b)
+			if err != nil {
+				res = append(res, "ERR")
+				continue
+			}
+			res = append(res, strconv.Itoa(m))
 		case 'm':
 			n, _ := strconv.Atoi(t[1:])
 			buf, err := w.Malloc(n)
@@ -510,8 +538,10 @@ func c13RandomWriter(rng *Rng, maxOps int) []string {
 		switch {
 		case r < 40:
 			args = append(args, "m"+strconv.Itoa(c13Size(rng, big)))
-		case r < 75:
+		case r < 60:
 			args = append(args, "w"+strconv.Itoa(c13Size(rng, big)))
+		case r < 75:
+			args = append(args, "W"+strconv.Itoa(c13Size(rng, big)))
 		default:
 			args = append(args, "f")
 		}
@@ -576,7 +606,7 @@ func genC13(tier string, rng *Rng) {
 		}
 	})
 	// (3) exhaustive writer sequences
-	wOps := []string{"m1", "m4095", "m4096", "m9000", "w0", "w4095", "w4096", "w9000", "f"}
+	wOps := []string{"m1", "m4095", "m4096", "m9000", "w0", "w4095", "w4096", "w9000", "W1", "W4096", "W9000", "f"}
 	LW := 3
 	if thorough {
 		LW = 4
